@@ -3,7 +3,7 @@
    likelySubtags.json, direction facts derived from the layout files, row-by-row CLDR look-ups). *)
 From UL Require Import Bytes Subtags LangId Grammar LangIdSpec Likely Inst LikelySpec LayoutSpec
                        BytesProofs SubtagProofs LangIdProofs LangIdAlgebra CanonProofs RawProofs PackProofs
-                       TablesData LayoutData LikelyProofs LikelySpecProofs DirectionProofs Oracle OracleSound.
+                       TablesData LayoutData LikelyProofs LikelySpecProofs DirectionProofs OpsInvProofs Oracle OracleSound.
 From UL Require Tables Layout CldrLikely.
 From Coq Require Import String Lia.
 Open Scope N_scope.
@@ -139,8 +139,18 @@ Proof.
   { apply some_inj in H; subst r. cbn [passes]. apply maximize_sound. apply WF. reflexivity. }
   destruct (beqb op (bs "minimize")) eqn:E2.
   { apply some_inj in H; subst r. cbn [passes]. apply minimize_sound. apply WF. reflexivity. }
-  destruct (beqb op (bs "li_maximize")) eqn:E3. { only_op E3. exact I. }
-  destruct (beqb op (bs "li_minimize")) eqn:E4. { only_op E4. exact I. }
+  destruct (beqb op (bs "li_maximize")) eqn:E3.
+  { apply some_inj in H; subst r. only_op E3. cbn [passes]. unfold spec_li_max_ok. rewrite langid_from_bytes_spec.
+    destruct (spec_langid (split (arg1 args))) as [x|] eqn:S; [|apply beqb_refl].
+    destruct (parsed_inv _ _ S) as [_ I]. unfold li_maximize. rewrite (maximize_is_spec _ _ _ (li_inv_wf _ I)).
+    unfold li_apply, fmt_li_change, fmt_li_changed. cbn [fmt_res_plain].
+    destruct (spec_maximize the_dict (li_lang x) (li_script x) (li_region x)) as [[[l s0] rg]|]; cbn [fst snd]; rewrite beqb_refl; reflexivity. }
+  destruct (beqb op (bs "li_minimize")) eqn:E4.
+  { apply some_inj in H; subst r. only_op E4. cbn [passes]. unfold spec_li_min_ok. rewrite langid_from_bytes_spec.
+    destruct (spec_langid (split (arg1 args))) as [x|] eqn:S; [|apply beqb_refl].
+    destruct (parsed_inv _ _ S) as [_ I]. unfold li_minimize. rewrite (minimize_is_spec _ _ _ (li_inv_wf _ I)).
+    unfold li_apply, fmt_li_change, fmt_li_changed. cbn [fmt_res_plain].
+    destruct (spec_minimize the_dict (li_lang x) (li_script x) (li_region x)) as [[[l s0] rg]|]; cbn [fst snd]; rewrite beqb_refl; apply orb_true_r. }
   destruct (beqb op (bs "direction_likely")) eqn:E5.
   { apply some_inj in H; subst r. apply direction_sound. }
   destruct (beqb op (bs "direction_plain")) eqn:E6.
